@@ -51,6 +51,7 @@ type Conn struct {
 	Visibility map[imap.MailboxID]imap.MailboxVisibility
 	closed     bool
 	IDPrefix   string
+	cache      connector.IMAPState
 }
 
 func New(users []string, pass string) *Conn {
@@ -137,7 +138,24 @@ func (c *Conn) MailboxIDByName(name []string) (imap.MailboxID, bool) {
 	return "", false
 }
 
-func (c *Conn) Init(ctx context.Context, cache connector.IMAPState) error { return nil }
+func (c *Conn) Init(ctx context.Context, cache connector.IMAPState) error {
+	c.mu.Lock()
+	c.cache = cache
+	c.mu.Unlock()
+	return nil
+}
+
+// StateWrite runs fn inside a write transaction of the connector's IMAP state (connector.IMAPState.Write), the way a
+// connector synchronises its mailbox list. Fails if the connector was not initialised by gluon yet.
+func (c *Conn) StateWrite(ctx context.Context, fn func(context.Context, connector.IMAPStateWrite) error) error {
+	c.mu.Lock()
+	cache := c.cache
+	c.mu.Unlock()
+	if cache == nil {
+		return errors.New("hconn: no IMAP state (Init not called)")
+	}
+	return cache.Write(ctx, fn)
+}
 
 func (c *Conn) Authorize(ctx context.Context, username string, password []byte) bool {
 	if string(password) != string(c.pass) {
